@@ -22,6 +22,19 @@ def purePow : List String → Option String
   | ["fused-plasma", a] => do
       let a ← a.toInt?
       pure (toString (Pow.fusedAmountToPlasma a))
+  | ["plasma-check", q, cm, un, f, d, b] => do
+      let q ← q.toInt?
+      let cm ← cm.toNat?
+      let un ← un.toNat?
+      let f ← f.toNat?
+      let d ← d.toNat?
+      let b ← b.toNat?
+      pure (match Pow.enoughPlasma q cm un f d b with
+        | .ok _ => "ok"
+        | .negativeAvailable => "vm-panic"
+        | .notEnoughPlasma => "not-enough-plasma"
+        | .limitReached => "limit-reached"
+        | .notEnoughTotal => "not-enough-total")
   | ["plasma-diff", p] => do
       let p ← p.toNat?
       match Pow.difficultyForPlasma p with
